@@ -13,7 +13,7 @@ func init() {
 		Explain: "The round-trip statement over values is not decidable statically; decided are its structural necessary conditions, for every archive: " +
 			"(A1) column table: for every field of Agency, Route, Stop, Transfer, Service, ScheduledTrip, ScheduledStopTime, ShapePoint/Shape, Frequency the CSV column(s) that can reach it (backward provenance through locals, phis, id maps and carrier structs) equal the GTFS reference, text columns are stored verbatim, typed columns pass through exactly their decoder; references are resolved by id lookup into the result's own collection; " +
 			"(A2) every enum decoder's extracted decision table maps each GTFS digit to the constant the reference names; (TIME) H:MM:SS is 3600h+60m+s seconds, linear, without modulo, accumulated in base 10; dates use layout 20060102 in the location handed down, which is the first agency's zone or UTC, and come from nowhere else (no time.Date / Unix / AddDate construction in the static parser); " +
-			"(A5) the file table binds each supported file name to its parse function with GTFS's optionality, phases respect def-use order, members are looked up by exact name from a map of all archive members; " +
+			"(FILL) a stop time's arrival and departure each keep their own column's value whenever that column is valid (validity is the decoder's flag, never `== 0`); (KEY) a string map key put together from several variable parts keeps them apart with constant text; (A5) the file table binds each supported file name to its parse function with GTFS's optionality, phases respect def-use order, members are looked up by exact name from a map of all archive members; " +
 			"(A4/CSV) the archive member is read only by the csv reader (no raw Read on it before or beside), the CSV reader is created only over the BOM-aware transformer and only ReuseRecord is configured, header names map to their position in the first record and cells are indexed only through that map (column order, extra columns, BOM, quoting, CRLF are the library's business); (NUM) every strconv.ParseInt/ParseUint of the static parser is called with the constant base 10 and every ParseFloat with bit size 64; (SVC) the calendar_dates rules of C11; (DEF) the optional-column readers return the cell of an existing column at any position; (SCAN) no row loop is left by a break; (ROW) no row appends more than one entity; (ROWSTATE) every field of csv.File's per-row object is renewed on every path of NextRow that announces a row, so nothing recorded about one row decides the fate of the next; (G13) reference fields point at entities of the result (the rules of C03); the stop-time capacity pre-allocation never discards collected stop times; (G7) no package-level state. " +
 			"Not decided: numerical correctness of strconv and the digit loop, zip/csv decoding themselves.",
 		Rules: []Rule{
@@ -29,6 +29,8 @@ func init() {
 			{Name: "ROWSTATE", Doc: "nothing recorded about one row is still there when the next row is current", MinInstances: 1, Run: runRowState},
 			{Name: "G13", Doc: "reference fields point at the entities of the result (provenance, growth discipline, id maps)", MinInstances: 8, Run: runRefRules},
 			{Name: "PREALLOC", Doc: "capacity pre-allocation never discards stop times", MinInstances: 1, Run: runPreallocGuard},
+			{Name: "FILL", Doc: "a stop time that gives both times keeps both: the other side is used only when a time is missing (decided by the decoder's validity flag, not by the value)", MinInstances: 1, Run: runFillIn},
+			{Name: "KEY", Doc: "a map key built from several parts keeps them apart", MinInstances: 1, Run: func(c *Ctx) { runCompositeKeys(c, "KEY") }},
 			{Name: "G7", Doc: "no package-level state in the static parser", MinInstances: 35, Run: staticGlobalWrites},
 		},
 	})
